@@ -330,7 +330,10 @@ def rule_matchsrc(ctx):
             yield o
 
 
+
+
 RULES = [
+    ("C18.TIMEBASE", 1, common.shared("c08", "rule_affine", "C18.TIMEBASE", keep=lambda o: o.construct.startswith("multipitch."))),
     ("C18.KWVIEW", 3, common.shared("c03", "rule_kwview", "C18.KWVIEW", keep=lambda o: o.construct.startswith("multipitch."))),
     ("C18.NOMUT", 4, common.shared("c15", "rule_nomut", "C18.NOMUT", keep=lambda o: o.construct.startswith("multipitch."))),
     ("C18.MATCHSRC", 2, rule_matchsrc),
